@@ -28,9 +28,17 @@ def run(ctx):
             else:
                 cur = CFG_B if cur is CFG_A else CFG_A
                 steps.append({"a": "Load", "cfg": cur, "frn": [], "ok": True})
-        scen.append({"id": i + 1, "replay": b[0]["n"], "steps": steps})
+        scen.append({"id": i + 1, "replay": b[0]["n"], "mode": "noprobe", "steps": steps})
     tf = rl_common.run_harness(ctx, scen, "c07sys", timeout=1500)
-    rows = vlib.read_ndjson(tf)
+    judge_rows(ctx, vlib.read_ndjson(tf), "in-package server", behs, scen)
+    # the same scenarios against the real binary: -replay_history flag, SIGHUP reloads, statuses read from /metrics
+    import copy
+    pscen = copy.deepcopy(scen[:6 if ctx.quick else 80])
+    tf2 = rl_common.run_process(ctx, pscen, "c07proc", timeout=1500)
+    judge_rows(ctx, vlib.read_ndjson(tf2), "real binary", behs, pscen)
+
+
+def judge_rows(ctx, rows, where, behs, scen):
     out = []
     for r in rows:
         if r["ev"] == "Scenario":
@@ -41,9 +49,9 @@ def run(ctx):
                 raise vlib.Inconclusive("system-level replay scenario could not present a handshake: %s" % json.dumps(r))
             out.append({"ev": "Add", "h": int(r["name"][1:]), "ret": r["status"] != "ERR_REPLAY_CLIENT",
                         "status": r["status"], "addr": r["addr"]})
-    rt = os.path.join(ctx.scratch, "c07sys-rc.ndjson")
+    rt = os.path.join(ctx.scratch, "c07sys-rc-%d.ndjson" % len(ctx.cov["samples"]))
     vlib.write_ndjson(rt, out)
-    rc_common.validate(ctx, rt, "system level: handshakes replayed across listeners, services and reloads")
+    rc_common.validate(ctx, rt, "system level (%s): handshakes replayed across listeners, services and reloads" % where)
     ctx.cov["evaluations"] += len(scen)
-    ctx.cov["distinct_nontrivial"] += sum(1 for b in behs if any(o.get("obl") for o in b))
+    ctx.cov["distinct_nontrivial"] += sum(1 for b in behs[:len(scen)] if any(o.get("obl") for o in b))
     ctx.sample({"system_scenario_statuses": [o for o in out[:12]]})
